@@ -28,8 +28,8 @@ CLAIMED = {
         note="Trusted: Lean kernel + standard axioms, gen_nanbox translator (typed expression translation of value.rs), harness built in both feature configurations; IEEE semantics of f64 shared by Rust and Lean Float for the spec cross-check",
         technique="Lean 4 proofs over BitVec/Nat bit patterns with generated definitions + two-build differential streams"),
     "C11": dict(
-        text="Lean theorems unbounded in length/index/history: index normalisation iff-characterisation, slices = drop/take with clamped bounds, every list operation sequence (incl. capacity-crossing relocations) refines the List operations with no write outside the allocation for every capacity including 0 and failing ops leaving the receiver unchanged, remove/insert reject every non-integer index, sort is a sorted permutation or returns exactly the comparator's failure, iterator-typed parameters reject non-iterators, tuples, strings by character, maps refine finite maps, iterator sources/terminals/adaptors equal the stream functions with callbacks left to right and short circuits; generated signature table, parameter-kind validity and guard texts; op sequences per receiver kind rendered for the Lean model/Spec engines and as Laythe programs, exhaustive boundary indices for lengths 0-4, multi-byte strings, raising/mutating callbacks, GC schedules",
-        note="Trusted: Lean kernel + standard axioms, gen_coll_signatures translator, hand-written native models (tied by the streams); split characterisation, n-ary zip/chain, until and sort stability are not proved; known findings D41, D44 (D40, D42, D43, D45 repaired in /repo)",
+        text="Lean theorems unbounded in length/index/history: index normalisation iff-characterisation, slices = drop/take with clamped bounds, every list operation sequence (incl. capacity-crossing relocations) refines the List operations with no write outside the allocation for every capacity including 0 and failing ops leaving the receiver unchanged, remove/insert reject every non-integer index, sort is a sorted permutation or returns exactly the comparator's failure, iterator-typed parameters reject non-iterators, tuples, strings by character, maps refine finite maps, iterator sources/terminals/adaptors equal the stream functions with callbacks left to right and short circuits, every size hint equals the number of elements left at every point of the stream, len = elements left, skip is lazy (C11_skip_lazy); generated signature table, parameter-kind validity and guard texts; op sequences per receiver kind rendered for the Lean model/Spec engines and as Laythe programs, exhaustive boundary indices for lengths 0-4, multi-byte strings, raising/mutating callbacks, GC schedules",
+        note="Trusted: Lean kernel + standard axioms, gen_coll_signatures translator, hand-written native models (tied by the streams); split characterisation, n-ary zip/chain, until and sort stability are not proved; D40-D45 all repaired in /repo (no open finding); hash-map iterators are judged by a counting monitor, not by the Lean model (their order depends on addresses)",
         technique="Lean 4 refinement proofs of collection natives against List/finite-map/stream specifications + model/Spec/implementation op-sequence streams"),
     "C12": dict(
         text="Lean theorem C12_preserves: for every instruction semantics satisfying the local laws, every well-delimited stream, every entry/label, all states and fuel, optimised = original; label-restart and line theorems; rule table proved equal to the one regenerated from peephole.rs; model tied to the real peephole_optimize on exhaustive windows, random streams and every fixture function; implementation output judged by an executable free-semantics Spec",
